@@ -76,14 +76,16 @@ for pid in ids or sorted(props):
                          "what the data may look like in memory, and which values the types admit.")
     if variant == "kl":
         variant = "k" if int(pid[1:]) % 2 else "l"
+    if variant == "lk":
+        variant = "l" if int(pid[1:]) % 2 else "k"
     if variant == "k":
-        hint = common.replace("six earlier rounds", "ten earlier rounds") + ("THIS ROUND'S RESTRICTION: the defect must be invisible to anybody who checks single calls on fresh inputs against the specification, "
+        hint = common.replace("six earlier rounds", "eleven earlier rounds") + ("THIS ROUND'S RESTRICTION: the defect must be invisible to anybody who checks single calls on fresh inputs against the specification, "
                          "however many inputs they try and however large: every call, looked at alone on a freshly started program, returns exactly what the property demands. It must need a HISTORY inside one "
                          "long-lived process to manifest: something that accumulates, wears out or drifts over many calls (a counter that wraps, a table or cache that fills up and then evicts wrongly, "
                          "a free-list or pool that hands back an entry in a state the first user never sees, a resource that is not given back on one rarely taken path, an amortised rebuild that happens "
                          "every N-th call), or a particular ORDER of calls with different arguments (A then B differs from B then A). No dependence on GOMAXPROCS and no data race needed: plain sequential use.")
     elif variant == "l":
-        hint = common.replace("six earlier rounds", "ten earlier rounds") + ("THIS ROUND'S RESTRICTION: look at the edges of what the property's quantifier ADMITS and pick a class of legitimate use that a test author "
+        hint = common.replace("six earlier rounds", "eleven earlier rounds") + ("THIS ROUND'S RESTRICTION: look at the edges of what the property's quantifier ADMITS and pick a class of legitimate use that a test author "
                          "who reads the statement quickly would not think of, then break only that class: e.g. an argument that is legal but has an unusual representation (a slice with len 0 and a huge capacity, "
                          "a sub-slice that starts in the middle of a larger array, a string built from bytes containing NULs or invalid UTF-8, a value at the exact maximum the statement permits, the same "
                          "object passed for two parameters, an interface holding a typed nil), an error or short count from a caller-supplied reader/writer at an unusual moment, a message type or element type the "
